@@ -107,6 +107,30 @@ def r1(repo, chk):
                 chk.ob("R1", f"{name}: `{norm(st)[:50]}` is an expected writer of the deadline", False, "unexpected writer of _close_at", fn.loc(st))
     have = {n for n, _ in seen}
     chk.ob("R1", "the deadline has all its expected writers (_connect, receive_datagram, _close_begin arm it; _close_end clears it)", {"_connect", "receive_datagram", "_close_begin", "_close_end"} <= have, f"writers found: {sorted(have)}: without the missing one a live connection has no finite timer (or no closing deadline)", "")
+    # every timer source get_timer reads is maintained: an owed ACK arms its deadline (C12-R2), and a discarded packet
+    # space stops being a source (a stale, already expired ack_at would be returned for ever and the close / idle
+    # deadline never reached)
+    from . import c12
+
+    class Sub:
+        n = 0
+
+        def ob(self, rule, key, ok, msg="", loc="", detail=None):
+            if "arms ack_at" in key:
+                Sub.n += 1
+                return chk.ob("R1", key, ok, msg or "an owed ACK has no timer: get_timer names only the idle deadline", loc, detail)
+            return ok
+
+        def count(self, *a):
+            pass
+
+    c12.r2(repo, Sub())
+    if Sub.n < 1:
+        raise AnalysisError("C09-R1: the ACK arming obligation of C12-R2 was not generated")
+    ds = Fn(repo, "quic.recovery:QuicPacketRecovery.discard_space")
+    clr = [st for st, t, v in ds.assigns(suffix="ack_at") if isinstance(v, ast.Constant) and v.value is None and not ds.lexical_guards(st, expand=False)]
+    skips = [st for st in gt.stmts(lambda x: isinstance(x, ast.If)) if "discarded" in norm(st.test)]
+    chk.ob("R1", "a discarded packet space is no timer source: discard_space clears its ack_at (or get_timer skips discarded spaces)", bool(clr) or bool(skips), "after the space is discarded nothing sends that ACK or clears the deadline: get_timer keeps returning an expired time and a caller that fires the timer when asked never reaches the close / idle deadline", ds.loc(ds.node))
     firsts = [s for s in seen if s[0] == "receive_datagram"]
     chk.ob("R1", "receive_datagram has both the first-datagram arming and the per-packet re-arming", len(firsts) == 2, f"{len(firsts)} writes of _close_at in receive_datagram: a server connection whose first datagram is not processed would have no timer", "")
     co = Fn(repo, CONN + "connect")
